@@ -1,4 +1,4 @@
-import TTV.Props.C01
+import TTV.Props.C03
 import TTV.Spec.C05
 import TTV.Lemmas.RunDetailsCore
 /-! # C05 — all details and every traceback reach the result
@@ -51,6 +51,25 @@ theorem idsNodupN_iff (l : List DName) : cNamesDistinct.idsNodupN l = true ↔ l
   | nil => simp [cNamesDistinct.idsNodupN]
   | cons x xs ih => simp [cNamesDistinct.idsNodupN, ih, List.nodup_cons]
 
+theorem degrade_id (f : Flavour) (o : Outcome) (h1 : f ≠ .py26) (h2 : f ≠ .stream) : degrade f o = o := by
+  cases f <;> cases o <;> simp_all [degrade]
+
+theorem find_reason_visible (f : Flavour) (d : Details) (h1 : f ≠ .py26) (h2 : f ≠ .stream) :
+    (visibleDetails f .skip d).find? (fun x => x.1 == nmReason) = d.find? (fun x => x.1 == nmReason) := by
+  unfold visibleDetails
+  split
+  · rfl
+  · simp only [h1, h2, ne_eq, not_false_eq_true, and_self, if_true, List.find?_filter]
+    congr 1
+    funext x
+    by_cases h : x.1 = nmReason <;> simp [h]
+
+theorem find_frozen (s : RS) (d : Details) (n : DName) :
+    (frozenDetails s d).find? (fun x => x.1 == n) =
+      (d.find? (fun x => x.1 == n)).map fun x => (x.1, freeze s.clock x.2) := by
+  simp only [frozenDetails, List.find?_map]
+  rfl
+
 /-! ## per-run clauses on the model's trace -/
 section perRun
 variable (p : Program) (ff0 : Bool) (hwf : wf p = true)
@@ -89,6 +108,62 @@ theorem clause_namesDistinct : cNamesDistinct p ff0 (runOnce p ff0) = true := by
     apply List.Nodup.sublist (names_visible_sublist _ _ _)
     rw [names_frozen]
     exact (hD.js.final (handlers p) sel).nodup
+
+theorem clause_reason : cReason p ff0 (runOnce p ff0) = true := by
+  simp only [cReason, Bool.or_eq_true]
+  by_cases h1 : p.flavour = .py26
+  · left; left; left; simp [h1]
+  by_cases h2 : p.flavour = .stream
+  · left; left; right; simp [h2]
+  by_cases h3 : p.userHandlers.any (fun h => match h.2 with | .user _ .skip => true | _ => false) = true
+  · left; right; exact h3
+  right
+  cases hskip : p.skipDeco with
+  | some r =>
+    have hd := degrade_id p.flavour .skip h1 h2
+    have hv := find_reason_visible p.flavour [(nmReason, .reason r)] h1 h2
+    have ho : outcomeOf (runOnce p ff0) =
+        some (degrade p.flavour .skip, visibleDetails p.flavour .skip [(nmReason, .reason r)]) := by
+      simp only [runOnce, hskip, outcomeOf, wrapRun, stopEv]
+      cases p.flavour <;> simp [evOutcome, List.findSome?_cons]
+    rw [ho, hd]
+    simp only [hv]
+    simp
+  | none =>
+    obtain ⟨o, r, sel, hdec, hshape⟩ := runOnce_shape_d p ff0 hwf hskip
+    have cf := runCore_facts p ff0 hwf hskip
+    rw [hshape, C01.outcomeOf_shape _ _ cf.logPure, degrade_id _ _ h1 h2]
+    cases hdec with
+    | success hnil => rfl
+    | lastResort e hsel hh => rfl
+    | handled e rep hsel hh =>
+      cases rep with
+      | user i o' =>
+        cases o' <;> try rfl
+        -- a user-supplied skip reporter: excluded above
+        exfalso
+        apply h3
+        obtain ⟨c, hm⟩ := C03.handlerFor_mem _ _ _ hh
+        simp only [handlers, List.mem_append] at hm
+        rcases hm with hm | hm
+        · exact List.any_eq_true.mpr ⟨_, hm, rfl⟩
+        · have := List.all_eq_true.mp C03.default_reporters _ hm
+          simp at this
+      | std o' =>
+        cases o' <;> try rfl
+        simp only [Reporter.outcome]
+        rw [(reads_of p ff0 hwf hskip _ _ _ _ _ _).raised]
+        have hfind : ((visibleDetails p.flavour .skip (frozenDetails (runCore p ff0).1
+            (finalDetails (handlers p) (runCore p ff0).1 (some e)))).find? (fun x => x.1 == nmReason)).map (·.2)
+              = some (Content.reason e.tag) := by
+          rw [find_reason_visible _ _ h1 h2, find_frozen]
+          simp only [finalDetails, hh, if_true, find_dset_self]
+          rfl
+        rw [hfind]
+        simp only [Bool.or_eq_true]
+        right
+        simp only [List.contains_eq_mem, List.mem_map, List.mem_filter, decide_eq_true_eq]
+        exact ⟨e, ⟨select_mem _ _ _ hsel, by simp [hh]⟩, rfl⟩
 
 end perRun
 
